@@ -180,6 +180,36 @@ pub fn run(tier: Tier, seed: u64) -> i32 {
             c.continue_after_call_errors = true;
             cases.push(c);
         }
+        // the same test with a third output, under every layout that supplies Q (any order, any subset)
+        let sigs3 = vec![Sig::inp("A", 1, 0), outs[0].clone(), outs[1].clone(), outs[2].clone()];
+        let all3: Vec<String> = outs.iter().take(3).map(|s| s.name.clone()).collect();
+        for layout in ordered_selections(3, 3) {
+            let names: Vec<String> = layout.iter().map(|&i| all3[i].clone()).collect();
+            if !names.contains(&"Q".to_string()) {
+                continue;
+            }
+            let mut menu = vec![];
+            for a in [V::Num(0), V::Num(1), V::Num(2), V::Z] {
+                menu.push(MenuItem::ans(names.iter().enumerate().map(|(j, n)| (n.clone(), if n == "Q" { a } else { V::Num(5 + j as i64) })).collect()));
+            }
+            let mut c = Case::new(&format!("a virtual signal next to outputs the driver leaves out, layout {names:?}"), p4.clone(), sigs3.clone(), true, menu.clone(), menu, 8);
+            c.continue_after_call_errors = true;
+            cases.push(c);
+        }
+    }
+    // wide interfaces: 16, 17, 20 and 40 outputs reported in list order, reversed, rotated, every other one
+    for n in [16usize, 17, 20, 40] {
+        let mut sigs = vec![Sig::inp("A", 1, 0)];
+        sigs.extend((0..n).map(|i| Sig::out(&format!("O{i}"), 8)));
+        let mut header = vec!["A".to_string()];
+        header.extend((0..n).map(|i| format!("O{i}")));
+        let row = |k: i64| Stmt::Row(std::iter::once(Entry::Lit(k % 2, Radix::Dec)).chain((0..n).map(|i| if (i as i64 + k) % 3 == 0 { Entry::X } else { Entry::Lit((i as i64 + k) % 7, Radix::Dec) })).collect());
+        let pw = Program { header, body: vec![row(0), row(1)] };
+        let orders: Vec<(&str, Vec<usize>)> = vec![("list order", (0..n).collect()), ("reversed", (0..n).rev().collect()), ("rotated by one", (0..n).map(|i| (i + 1) % n).collect()), ("every other one", (0..n).step_by(2).collect()), ("two neighbours swapped", { let mut v: Vec<usize> = (0..n).collect(); v.swap(n - 2, n - 1); v })];
+        for (what, order) in orders {
+            let menu: Vec<MenuItem> = [0i64, 1].iter().map(|k| MenuItem::ans(order.iter().map(|&i| (format!("O{i}"), V::Num((i as i64 + k) % 7))).collect())).collect();
+            cases.push(Case::new(&format!("{n} outputs, {what}"), pw.clone(), sigs.clone(), true, menu.clone(), menu, 4));
+        }
     }
     // a bidirectional D next to an output that is literally called D_out
     {
